@@ -159,10 +159,22 @@ class ConstEval:
           return chr(v)
       if fn in ("Fraction", "fractions.Fraction"):
         vals = [self._ev(m, a, cls, env) for a in args]
+        if any(isinstance(v, (Sym, EnumMember)) for v in vals):
+          raise NotConst("symbolic Fraction")
         try:
           return Fraction(*vals)
+        except (ValueError, ZeroDivisionError):
+          raise Raised()          # the evaluated code itself raises on this input
         except Exception as ex:
           raise NotConst(str(ex))
+      if fn == "isinstance" and len(args) == 2 and not e.keywords:
+        types = {"bool": bool, "int": int, "str": str, "float": float, "bytes": bytes, "list": list, "tuple": tuple, "dict": dict}
+        spec = args[1].elts if isinstance(args[1], ast.Tuple) else [args[1]]
+        if all(isinstance(t, ast.Name) and t.id in types for t in spec):
+          v = self._ev(m, args[0], cls, env)
+          if isinstance(v, (Sym, EnumMember)):
+            raise NotConst("symbolic isinstance")
+          return isinstance(v, tuple(types[t.id] for t in spec))
       if fn in ("int", "float", "str", "len", "bytes", "bool", "abs", "min", "max", "round") and not e.keywords:
         vals = [self._ev(m, a, cls, env) for a in args]
         if any(isinstance(v, (Sym, EnumMember)) for v in vals):
@@ -170,9 +182,13 @@ class ConstEval:
         try:
           return {"int": int, "float": float, "str": str, "len": len, "bytes": bytes, "bool": bool,
                   "abs": abs, "min": min, "max": max, "round": round}[fn](*vals)
+        except ValueError:
+          if fn in ("int", "float"):
+            raise Raised()        # int("x") / float("x"): the evaluated code raises ValueError on this input
+          raise NotConst("ValueError")
         except Exception as ex:
           raise NotConst(str(ex))
-      if isinstance(e.func, ast.Attribute) and e.func.attr in ("join", "lower", "upper", "strip", "get") and not e.keywords:
+      if isinstance(e.func, ast.Attribute) and e.func.attr in ("join", "lower", "upper", "strip", "get", "split", "startswith", "endswith", "isdigit") and not e.keywords:
         try:
           recv = self._ev(m, e.func.value, cls, env)
           vals = [self._ev(m, a, cls, env) for a in args]
@@ -181,8 +197,11 @@ class ConstEval:
         if isinstance(recv, str) and vals is not None and not any(isinstance(v, (Sym, EnumMember)) for v in vals):
           if e.func.attr == "join" and len(vals) == 1 and all(isinstance(x, str) for x in vals[0]):
             return recv.join(vals[0])
-          if e.func.attr in ("lower", "upper", "strip") and not vals:
+          if e.func.attr in ("lower", "upper", "strip", "isdigit") and not vals:
             return getattr(recv, e.func.attr)()
+          if e.func.attr in ("split", "startswith", "endswith") and len(vals) <= 2 and all(isinstance(x, (str, int, tuple)) for x in vals):
+            r_ = getattr(recv, e.func.attr)(*vals)
+            return r_
         if isinstance(recv, dict) and e.func.attr == "get" and vals is not None and 1 <= len(vals) <= 2:
           try:
             return recv.get(*vals)
@@ -330,6 +349,8 @@ class FuncEval:
     elif isinstance(target, (ast.Tuple, ast.List)) and isinstance(v, (tuple, list)) and len(v) == len(target.elts):
       for t, x in zip(target.elts, v):
         FuncEval._bind(t, x, env)
+    elif isinstance(target, (ast.Tuple, ast.List)) and isinstance(v, (tuple, list)):
+      raise Raised()        # unpacking a sequence of the wrong length raises ValueError
     else:
       raise NotConst("assignment target")
 
